@@ -66,11 +66,11 @@ theorem C06_code_roundtrip (g : Gen.Go.frame) (cf : Gen.Go.Frame) (hv : Frame_Va
 
 /-- the translated transmit path: `var scf frame; scf.encodeFrame(f); data := make([]byte, 16); scf.marshalBinary(data)` -/
 def codeWire (cf : Gen.Go.Frame) : BitVec 128 :=
-  frame_marshalBinary_recv (frame_encodeFrame_recv ⟨0, 0, 0⟩ cf) 0#128 16#64
+  BitVec.setWidth 128 (frame_marshalBinary_recv (frame_encodeFrame_recv ⟨0, 0, 0⟩ cf) 0#512 16#64)
 
 /-- the translated receive path: `r.frame = frame{}; r.frame.unmarshalBinary(block); r.frame.decodeFrame()` -/
 def codeUnwire (b : BitVec 128) : Gen.Go.Frame :=
-  frame_decodeFrame_ret (frame_unmarshalBinary_recv ⟨0, 0, 0⟩ b 16#64)
+  frame_decodeFrame_ret (frame_unmarshalBinary_recv ⟨0, 0, 0⟩ (BitVec.setWidth 512 b) 16#64)
 
 theorem codeWire_eq (cf : Gen.Go.Frame) : codeWire cf = wire (frameOf cf) := by
   unfold codeWire wire
@@ -78,7 +78,10 @@ theorem codeWire_eq (cf : Gen.Go.Frame) : codeWire cf = wire (frameOf cf) := by
 
 theorem codeUnwire_eq (b : BitVec 128) : frameOf (codeUnwire b) = unwire b := by
   unfold codeUnwire unwire
-  rw [(bridge_sc_decode _).1, (bridge_sc_unmarshal _ b _ (by decide)).1]
+  rw [(bridge_sc_decode _).1, (bridge_sc_unmarshal _ _ _ (by decide)).1]
+  have : BitVec.setWidth 128 (BitVec.setWidth 512 b) = b := by
+    apply BitVec.eq_of_getLsbD_eq; intro i hi; simp [hi]
+  rw [this]
 
 /-- the 16 bytes the translated transmit path writes: ID and flags, length, zero padding, data -/
 theorem C06_code_tx_layout (cf : Gen.Go.Frame) :
